@@ -133,6 +133,15 @@ theorem C14_owner_release (c : Cidr) (ops : List Op) (op : Op) (o' : Own)
     by_cases hin : e ∈ (svcDelete s o true).1.links
     · exact hin
     · exact absurd (svcDelete_removed hu o true e he hin).1 hne
+  | svcDeleteCut o =>
+    injection hr with hr; subst hr
+    refine ⟨fun e he hne => ?_, svcDeleteCut_links_sub s o⟩
+    simp only [step, svcDeleteCut]
+    split
+    · exact he
+    · by_cases hin : e ∈ (svcDelete s o true).1.links
+      · exact hin
+      · exact absurd (svcDelete_removed hu o true e he hin).1 hne
   | _ => cases hr
 
 /-- **C14 (owner release), single name.**  `free` / `unlink_rule` / `unlink_spec` by `o'` of a name
